@@ -149,6 +149,7 @@ type Engine struct {
 	curFn     []*ssa.Function
 	threads   *threadState
 	spec      bool
+	allocLimit int
 	qcache    map[string]SatResult
 	lastCheck SatResult
 }
@@ -422,6 +423,7 @@ func (e *Engine) resetPath() {
 	e.goInline = false
 	e.curFn = e.curFn[:0]
 	e.threads = nil
+	e.allocLimit = 0
 	e.tt.nfresh = 0
 }
 
